@@ -195,8 +195,9 @@ static std::string h_vgmsong(const std::string& arg)
 	struct Restore { int fd; ~Restore() { std::cout.flush(); fflush(stdout); dup2(fd, 1); close(fd); } } restore{saved};
 	try
 	{
-		char name[96];
-		snprintf(name, sizeof name, "/tmp/c08_%d.mml", (int)getpid());
+		char name[512];
+		const char* td = getenv("VERIF_TMPDIR");
+		snprintf(name, sizeof name, "%s/c08_%d.mml", td ? td : "/tmp", (int)getpid());
 		FILE* fp = fopen(name, "wb");
 		if(!fp) return "song exc:tmpfile";
 		fwrite(text.data(), 1, text.size(), fp);
